@@ -72,7 +72,7 @@ func zzVerifyCheck(emBits, sLen int) {
 
 //zz: prop=C18 tier=quick backend=bv timeout=300
 func ZZ_C18_emsaPSSVerify_salted() {
-	zzVerifyCheck(zzPick("emBits", 535, 536, 537, 543, 544), 32)
+	zzVerifyCheck(zzPick("emBits", 535, 536, 537, 543, 544, 775, 776), 32) // 775/776: emLen = 97, data block of exactly 2 hash lengths
 }
 
 // salt length given as rsa.PSSSaltLengthEqualsHash (-1)
@@ -94,7 +94,7 @@ func ZZ_C18_emsaPSSVerify_salt_equals_hash() {
 //
 //zz: prop=C18 tier=quick backend=bv timeout=300
 func ZZ_C18_emsaPSSEncode() {
-	emBits := zzPick("emBits", 535, 536, 537, 544)
+	emBits := zzPick("emBits", 535, 536, 537, 544, 776)
 	sLen := zzPick("sLen", 1, 32)
 	emLen := (emBits + 7) / 8
 	mHash, salt := make([]byte, 32), make([]byte, sLen)
